@@ -165,6 +165,18 @@ def public_case(nap, ts, ep):
             c = type(o)(t, datas[name], time_support=epo)
         if _ticks(c.t) != exp_t or (name != "Ts" and not np.array_equal(c.values, datas[name][exp_i])):
             return {"key": {"op": name + "(time_support=)"}, "what": "constructor with time_support differs from construct-then-restrict", "input": inp}
+        # the same through the other time units (timestamps given in ms / us, support in seconds)
+        for units, f in (("ms", 1e3), ("us", 1e6)):
+            tu = np.asarray(ts, dtype=np.float64) / (1e9 / f)
+            if name == "Ts":
+                cu = nap.Ts(tu, time_units=units, time_support=epo)
+            elif name == "TsdFrame":
+                cu = nap.TsdFrame(tu, d2, time_units=units, time_support=epo, columns=["a", "b", "c"])
+            else:
+                cu = type(o)(tu, datas[name], time_units=units, time_support=epo)
+            if _ticks(cu.t) != exp_t or (name != "Ts" and not np.array_equal(cu.values, datas[name][exp_i])):
+                return {"key": {"op": name + "(time_support=)", "units": units}, "what": "constructor with time_units and time_support differs from construct-then-restrict",
+                        "input": inp, "impl": _ticks(cu.t), "expected": exp_t}
     # TsGroup member-wise
     wide = nap.IntervalSet(t[0] - 1.0, t[-1] + 1.0)
     g = nap.TsGroup({3: nap.Ts(t), 1: nap.Ts(t[: max(1, n // 2)])}, time_support=wide, metadata={"lab": ["x", "y"]})
